@@ -86,6 +86,15 @@ REAL_CONTRACTS['create_whiteout'] = dict(
     ensures=['!self.in_upper_layer ==> r is Err && %s // [C10.real.create_whiteout.erofs]' % EROFS,
              'r is Ok ==> self.in_upper_layer && r->Ok_0.whiteout && !r->Ok_0.opaque && r->Ok_0.layer == self.layer && r->Ok_0.in_upper_layer && r->Ok_0.wf() // [C10.real.create_whiteout.result] the RealInode returned is marked as a whiteout of the upper layer'])
 
+# the single layer call each mutator makes (callee-side capability at the call sites of unit ovl_ops)
+CAP_CALL = {
+    'mkdir': '(*self.layer).may_mkdir(self.inode, %s, mode, umask)' % NAMEB,
+    'create': '(*self.layer).may_create(self.inode, %s, args)' % NAMEB,
+    'mknod': '(*self.layer).may_mknod(self.inode, %s, mode, rdev, umask)' % NAMEB,
+    'link': '(*self.layer).may_link(ino, self.inode, %s)' % NAMEB,
+    'symlink': '(*self.layer).may_symlink(str_bytes(link_name@), self.inode, str_bytes(filename@))',
+}
+
 TO_CSTRING = (r'CString::new\(name\)\.map_err\(\|e\| Error::new\(ErrorKind::InvalidData, e\)\)', 'utils::to_cstring(name)',
               'the expression is the body of utils::to_cstring (contract only: CString::new + NulError -> io::Error)')
 LIST_NAMES = (r'let mut child_names = vec!\[\];.*?\n        while more \{.*?\n        \}\n',
